@@ -5,3 +5,5 @@ import L21.Props.C10
 #print axioms L21.Gds.c10_needs_endlib
 #print axioms L21.Gds.c10_total
 #print axioms L21.Gds.c10_parser_fuel
+#print axioms L21.Gds.c10_rewritable
+#print axioms L21.Gds.c10_reencodable_partial
